@@ -5,6 +5,7 @@ import (
 	"fmt"
 	"net"
 	"strings"
+	"sync/atomic"
 	"time"
 )
 
@@ -16,8 +17,10 @@ import (
 // monitor, the canary client and the quiescent census of the batch.
 
 type mconn struct {
-	nc net.Conn
-	in *inbound
+	nc     net.Conn
+	raw    net.Conn // the TCP connection underneath (nc may be a TLS wrapper)
+	in     *inbound
+	noread atomic.Bool // the peer stops reading: the server's send buffer fills up
 }
 
 func dialM(ch *child) (*mconn, error) {
@@ -26,13 +29,23 @@ func dialM(ch *child) (*mconn, error) {
 	if err != nil {
 		return nil, err
 	}
+	raw := nc
 	if ch.cfg.TLS {
 		nc = tls.Client(nc, &tls.Config{InsecureSkipVerify: true})
 	}
-	m := &mconn{nc: nc, in: &inbound{}}
+	m := &mconn{nc: nc, raw: raw, in: &inbound{}}
 	go func() {
 		buf := make([]byte, 16384)
 		for {
+			for m.noread.Load() {
+				m.in.mu.Lock()
+				cl := m.in.closed
+				m.in.mu.Unlock()
+				if cl {
+					return
+				}
+				time.Sleep(5 * time.Millisecond)
+			}
 			n, err := nc.Read(buf)
 			m.in.mu.Lock()
 			if n > 0 && len(m.in.buf) < 1<<20 {
@@ -55,6 +68,9 @@ func runMulti(ch *child, cv conversation) (out outcome) {
 	conns := map[int]*mconn{}
 	defer func() {
 		for _, m := range conns {
+			m.in.mu.Lock()
+			m.in.closed = true // releases a reader that was told not to read
+			m.in.mu.Unlock()
 			m.nc.Close()
 		}
 	}()
@@ -83,6 +99,18 @@ func runMulti(ch *child, cv conversation) (out outcome) {
 		}
 		if s.Kind == "dial" {
 			continue // the connection is opened ahead of time so that later writes leave back to back
+		}
+		if s.Kind == "noread" {
+			// stop reading (and shrink the receive buffer so that the server's writer blocks soon)
+			if tc, ok := m.raw.(*net.TCPConn); ok {
+				_ = tc.SetReadBuffer(2048)
+			}
+			m.noread.Store(true)
+			continue
+		}
+		if s.Kind == "sleep" {
+			time.Sleep(time.Duration(s.Chan) * time.Millisecond)
+			continue
 		}
 		subst := strings.NewReplacer("{base}", ch.base(), "{sess}", sess, "{cport}", fmt.Sprint(cport), "{cport1}", fmt.Sprint(cport+1),
 			"{cport2}", fmt.Sprint(cport+2), "{cport3}", fmt.Sprint(cport+3), "{cookie}", fmt.Sprintf("cookie%d", cv.ID))
@@ -169,6 +197,35 @@ func tunnelConversations(cfg childCfg) []conversation {
 	add("post-before-get", []step{dial(0), dial(1), post(1), get(0)}, 4)
 	add("two-gets-one-post", []step{dial(0), dial(1), dial(2), get(0), get(1), post(2)}, 4)
 	add("two-gets-two-posts", []step{dial(0), dial(1), dial(2), dial(3), get(0), get(1), post(2), post(3)}, 4)
+	_ = cfg
+	return out
+}
+
+// stalledConversations: a TCP reader that stops reading while the stream is being written (the
+// server's writer blocks in a write bounded by its write timeout) and then sends a request that
+// makes the session tear its writer down - PAUSE, TEARDOWN, a second PLAY - or just waits; in
+// every case the server has to come back to its baseline once the peer is gone.
+func stalledConversations(cfg childCfg) []conversation {
+	var out []conversation
+	tr := func(i int) string { return fmt.Sprintf("RTP/AVP/TCP;unicast;interleaved=%d-%d", 2*i, 2*i+1) }
+	for _, action := range []string{"PAUSE", "TEARDOWN", "PLAY", "GET_PARAMETER", "none"} {
+		for _, fill := range []int{400, 1500} {
+			st := []step{
+				req("SETUP", "{base}/stream/trackID=0", true, "Transport", tr(0)),
+				req("SETUP", "{base}/stream/trackID=1", true, "Transport", tr(1), "Session", "{sess}"),
+				req("PLAY", "{base}/stream", true, "Session", "{sess}"),
+				{Kind: "noread"},
+				{Kind: "sleep", Chan: fill},
+			}
+			if action != "none" {
+				st = append(st, req(action, "{base}/stream", false, "Session", "{sess}"))
+			}
+			// longer than the server's write timeout: the blocked write fails while the request is handled
+			st = append(st, step{Kind: "sleep", Chan: 3200}, step{Kind: "closeconn"})
+			out = append(out, conversation{Seed: "stalled-reader", Multi: true, TruncateAt: -1, Steps: st,
+				Muts: []string{"stalled:" + action, fmt.Sprintf("fill-ms:%d", fill)}})
+		}
+	}
 	_ = cfg
 	return out
 }
